@@ -69,7 +69,9 @@ Proof. exact one_node_per_shard. Qed.
 Print Assumptions C19_one_node_per_shard.
 
 (* moves_only_when_ineligible_or_rebalanced — along every history, a shard leaves its node
-   only by a rebalance, or by routing that very shard while its node cannot accept writes. *)
+   only by a rebalance, or by routing that very shard while its node cannot accept writes
+   (or, third case, during which another task changed the registry, so that the node failed
+   the lookup of an attempt). *)
 Theorem C19_moves_only_when_ineligible_or_rebalanced :
   forall (strat : strategy) (H : hashes) (h : list op) (o : op) (s : shard) (n : node),
   let st := run strat H h in
@@ -77,7 +79,8 @@ Theorem C19_moves_only_when_ineligible_or_rebalanced :
   aget N.eqb s (st_asg st) = Some n ->
   aget N.eqb s (st_asg st') <> Some n ->
   (exists order, o = ORebalance order) \/
-  (exists order, o = ORoute s order /\ eligible (st_reg st) n = false).
+  (exists order, o = ORoute s order /\ eligible (st_reg st) n = false) \/
+  (exists order specs, o = ORouteI s order specs).
 Proof. exact moves_only_when_ineligible_or_rebalanced_hist. Qed.
 Print Assumptions C19_moves_only_when_ineligible_or_rebalanced.
 
@@ -87,7 +90,7 @@ Theorem C19_assigned_only_by_route :
   step strat H st o = (st', r) ->
   aget N.eqb s (st_asg st) = None ->
   aget N.eqb s (st_asg st') <> None ->
-  exists order, o = ORoute s order.
+  (exists order, o = ORoute s order) \/ (exists order specs, o = ORouteI s order specs).
 Proof. exact assigned_only_by_route. Qed.
 Print Assumptions C19_assigned_only_by_route.
 
